@@ -4,6 +4,7 @@ import BevySyncModel.Proofs.CompPot
 import BevySyncModel.Proofs.CompLive
 import BevySyncModel.Proofs.CompPotG
 import BevySyncModel.Proofs.AssetPot
+import BevySyncModel.Proofs.AssetLive
 import BevySyncModel.Proofs.MatBound
 import BevySyncModel.Proofs.MatLive
 import BevySyncModel.Proofs.EntBound
@@ -160,6 +161,23 @@ theorem C09_asset_traffic_bounded (s : Asset.State) (as : List Asset.Act) (hn : 
 theorem C09_asset_quiet (s : Asset.State) (as : List Asset.Act) (hn : (s.clients.map (·.id)).Nodup)
     (h0 : Asset.pops as = 0) : (Asset.run true false s as).sent ≤ Asset.gpot s :=
   Asset.asset_quiet s as hn h0
+
+/-- **download-class assets: message flow stops within three fair rounds**, from any state with distinct client ids (a
+round: every pending event handled, every announcement taken, every queued download run — with whatever its owner serves
+at that moment, or a 404 — and what arrived applied; host first, then every client) -/
+theorem C09_asset_quiescent_within_three_rounds (s : Asset.State) (hn : (s.clients.map (·.id)).Nodup) :
+    Asset.Quiescent (Asset.round (Asset.round (Asset.round s))) :=
+  Asset.three_rounds_quiescent s hn
+
+/-- non-vacuity: uncovered events, announcements, queued downloads and unapplied content everywhere -/
+example :
+    let s0 : Asset.State :=
+      { host := { content := some 1, events := 2, tokens := 1, served := some 1, slot := some 4, jobs := [1, 2] },
+        clients := [Asset.Client.mk 1 { content := some 2, events := 3, served := some 2, jobs := [0] } [1, 1] [0, 2],
+                    Asset.Client.mk 2 { events := 1, tokens := 2, slot := some 9 } [2] [1]] }
+    (decide (Asset.Quiescent s0) = false) ∧ (decide (Asset.Quiescent (Asset.round s0)) = false) ∧
+      Asset.Quiescent (Asset.round (Asset.round (Asset.round s0))) := by
+  refine ⟨by decide, by decide, by decide⟩
 
 /-- non-vacuity: two clients write conflicting values in the same frames; 2 writes, 3 peers, 4 messages ≤ 2 · 3 -/
 example :
